@@ -234,7 +234,8 @@ def main():
         if 'undecided' in res:
             undecided.append('%s: %s' % (name, res['undecided']))
         cmds.append(res['verus']['cmd'])
-        obls = obligations_of(meta, pats)
+        obls = [o for o in obligations_of(meta, pats)
+                if not any(re.search(x, o) for x in u.get('exclude_obligations', []))]
         # template lemmas (proof fns written in /verif/specs): every one in the unit counts
         lemma_names = sorted(n for n, v in res['ftab'].items() if v.get('mode') == 'proof')
         for n in lemma_names:
@@ -256,7 +257,8 @@ def main():
         # failures
         for f in res.get('fails', []):
             if f['kind'] == 'semantic':
-                if f['item'] and relevant(f['item'], pats):
+                if f['item'] and relevant(f['item'], pats) and not any(
+                        re.search(x, f['obligation'] or '') for x in u.get('exclude_obligations', [])):
                     kh = [k for k in known if k['obligation'] == f['obligation']]
                     if kh:
                         known_hits.append((f, kh[0]))
@@ -324,6 +326,8 @@ def main():
                                 'source': '%s:%d' % (it['file'], it['line_start'])})
 
     wall = time.time() - t0
+    known_ids = set(k['obligation'] for _, k in known_hits)
+    all_obls = [o for o in all_obls if o not in known_ids]      # known findings are reported apart
     n_obl = len(all_obls)
     n_dis = len([o for o in all_obls if o not in failed_obls])
     status = 'ok'
@@ -352,7 +356,7 @@ def main():
             'samples': samples or [{'note': 'no sample available (unit not assembled)'}],
             'status': status,
             'undecided_reasons': undecided,
-            'known_findings_hit': [k['obligation'] for _, k in known_hits],
+            'known_findings_hit': [{'obligation': k['obligation'], 'finding': k['text']} for _, k in known_hits],
             'failing_obligations_of_other_properties': sorted(set(unrelated)),
             'what_is_proved': prop.get('proved', ''),
             'not_covered': prop.get('not_covered', []),
